@@ -188,6 +188,8 @@ def main(argv=None):
             kf = [k for k in known if k['prop'] == prop and k['obligation'] == oid and (k['witness'] == '*' or k['witness'] in wit)]
             if kf:
                 known_hits.append((oid, kf[0]['witness']))
+                # a listed finding is reported as KNOWN-FINDING, not counted among the obligations claimed discharged
+                n_obl -= sum(1 for x in refuted_here if obl_id(prop, unit, x) == oid)
             else:
                 violations.append(rec)
     # bounded stand-ins: same contract, native evaluation over generated inputs; never counted as discharged
@@ -217,7 +219,7 @@ def main(argv=None):
             errors.append('bounded stand-in for %s evaluated zero inputs' % qn)
     # bounded scenario stand-ins (real objects, generated event sequences, oracles from the property statement)
     for scen, n, what in SCENARIO_UNITS.get(prop, []):
-        nn = n * (1 if tier == 'quick' else 10)
+        nn = n * (1 if tier == 'quick' or n == 1 else 10)
         r = native(dict(mode='scenario', scenario=scen, n=nn, seed=seed), timeout=900)
         bounded_units.append(dict(unit='scenario:' + scen, bound='%d generated event sequences of length <= 14 (seed %d)' % (nn, seed),
                                   evaluations=r.get('tried', 0), distinct=r.get('distinct', 0), reason=what))
@@ -356,9 +358,11 @@ SCENARIO_UNITS = {
     'C13': [('consumer', 400, 'Consumer.stop()/shutdown() (500+ symbolic paths) and their interleavings with replies, timers and processor results')],
     'C03': [('consumer', 400, 'commit()/auto-commit chains across processor results: a committed offset was successfully processed')],
     'C02': [('consumer', 400, 'delivery order / no concurrent invocation across fetch replies, retries and compaction gaps')],
+    'C04': [('magic_fallback', 1, 'message format chosen before the API version is known (Producer._send_requests + failed discovery): deterministic reproducer')],
     'C01': [('broker_aware', 300, 'KafkaClient._send_broker_aware_request with acks=0/1 and failing brokers (polymorphic @inlineCallbacks code)')],
     'C07': [('broker_aware', 300, 'one request per broker, responses in payload order, failed payloads accounted for exactly once')],
-    'C20': [('client_close', 400, 'nested close aggregates (_close_brokerclients) across metadata refreshes and close()')],
+    'C20': [('client_close', 400, 'nested close aggregates (_close_brokerclients) across metadata refreshes and close()'),
+            ('bootstrap_close', 1, 'operation pending on a bootstrap connection attempt at close(): deterministic reproducer')],
     'C08': [('metadata_merge', 300, '_merge_topic_metadata / reset_topic_metadata (dict-of-dict code with KeyError control flow)')],
     'C06': [('brokerclient', 300, 'close()/cancel/response interleavings with re-entrant cancellation from callbacks')],
     'C15': [('assignment', 300, '_round_robin_assignment (sets, itertools.cycle, nested defaultdict) over member-order permutations')],
